@@ -85,6 +85,8 @@ pub struct World {
     /// `references_glob`).
     pub namespaces: Vec<PublicKey>,
     memo: HashMap<Vec<u8>, Oid>,
+    /// Refs currently set by `present`, per object.
+    current: HashMap<String, BTreeMap<usize, Oid>>,
     pub writes: u64,
     pub memo_hits: u64,
 }
@@ -97,7 +99,12 @@ pub fn scratch() -> Option<tempfile::TempDir> {
     if std::env::var_os("MCX_CHILD").is_some() {
         return None;
     }
-    let dir = tempfile::Builder::new().prefix("cobdag-").tempdir().expect("tempdir");
+    // Thousands of small ref / object files per second: prefer a memory file system.
+    let shm = std::path::Path::new("/dev/shm");
+    let dir = match tempfile::Builder::new().prefix("cobdag-").tempdir_in(shm) {
+        Ok(d) if std::env::var_os("TMPDIR").is_none() => d,
+        _ => tempfile::Builder::new().prefix("cobdag-").tempdir().expect("tempdir"),
+    };
     std::env::set_var(SCRATCH_ENV, dir.path());
     Some(dir)
 }
@@ -158,6 +165,7 @@ impl World {
             actors,
             namespaces,
             memo: HashMap::new(),
+            current: HashMap::new(),
             writes: 0,
             memo_hits: 0,
         }
@@ -205,16 +213,40 @@ impl World {
         radicle::git::refs::storage::cob(&self.namespaces[ns], ty, obj).to_string()
     }
 
-    /// Remove every namespaced ref of the object, then point namespace `ns` at `target` for each
-    /// pair (through `object::Storage::update`).
-    pub fn present(&self, ty: &TypeName, obj: &ObjectId, refs: &[(usize, Oid)]) {
-        self.clear(ty, obj);
-        for (ns, target) in refs {
-            self.repo.update(&self.namespaces[*ns], ty, obj, target).expect("update ref");
+    /// Make the namespaced refs of the object exactly `refs` (namespace index -> target): refs
+    /// are written through `object::Storage::update`; only refs that differ from the previous
+    /// presentation of this object are touched.
+    pub fn present(&mut self, ty: &TypeName, obj: &ObjectId, refs: &[(usize, Oid)]) {
+        let key = format!("{ty}/{obj}");
+        if !self.current.contains_key(&key) {
+            // First time: remove whatever points at the object (the founder's identity ref).
+            self.glob_clear(ty, obj);
+            self.current.insert(key.clone(), BTreeMap::new());
         }
+        let want: BTreeMap<usize, Oid> = refs.iter().copied().collect();
+        assert_eq!(want.len(), refs.len(), "one ref per namespace");
+        let cur = self.current.get(&key).cloned().unwrap_or_default();
+        for ns in cur.keys() {
+            if !want.contains_key(ns) {
+                let name = self.ref_name(*ns, ty, obj);
+                self.repo.backend.find_reference(&name).and_then(|mut r| r.delete()).expect("delete ref");
+            }
+        }
+        for (ns, target) in &want {
+            if cur.get(ns) != Some(target) {
+                self.repo.update(&self.namespaces[*ns], ty, obj, target).expect("update ref");
+            }
+        }
+        self.current.insert(key, want);
     }
 
-    pub fn clear(&self, ty: &TypeName, obj: &ObjectId) {
+    pub fn clear(&mut self, ty: &TypeName, obj: &ObjectId) {
+        self.present(ty, obj, &[]);
+        self.current.remove(&format!("{ty}/{obj}"));
+        // Keep the bookkeeping bounded; an object that comes back is glob-cleared again.
+    }
+
+    fn glob_clear(&self, ty: &TypeName, obj: &ObjectId) {
         let pattern = radicle::git::refs::storage::cobs(ty, obj);
         let names: Vec<String> = self
             .repo
@@ -1030,13 +1062,12 @@ pub fn build(w: &mut World, plan: &Plan) -> Built {
         for salt in 0..SALT_CAP {
             spec.salt = salt;
             let id = w.write(&spec);
+            // The id of the change with target rank r (of n) is placed in the r-th of n equal
+            // bands of the id space (by first byte), so every prefix is order-consistent and the
+            // search never runs into a narrow gap.
             let ok = match &plan.rank {
                 None => true,
-                Some(target) => {
-                    let mut cur: Vec<Oid> = ids[1..].to_vec();
-                    cur.push(id);
-                    order_consistent(&cur, target)
-                }
+                Some(target) => id.as_bytes()[0] as usize * n / 256 == target[i - 1],
             };
             if ok && !ids.contains(&id) {
                 chosen = Some((id, salt));
@@ -1098,4 +1129,17 @@ pub fn plan_from_json(v: &Value) -> Option<Plan> {
         modes: serde_json::from_value(v.get("modes")?.clone()).ok()?,
         rank: serde_json::from_value(v.get("rank")?.clone()).ok()?,
     })
+}
+
+/// Split faceted outcome labels (`a=x|b=y|b=z`) into one histogram per facet.
+pub fn marginals(outcomes: &BTreeMap<String, u64>) -> serde_json::Map<String, Value> {
+    let mut m: BTreeMap<String, BTreeMap<String, u64>> = BTreeMap::new();
+    for (label, count) in outcomes {
+        for facet in label.split('|') {
+            if let Some((k, v)) = facet.split_once('=') {
+                *m.entry(k.to_string()).or_default().entry(v.to_string()).or_default() += count;
+            }
+        }
+    }
+    m.into_iter().map(|(k, v)| (k, json!(v))).collect()
 }
